@@ -69,6 +69,14 @@ def run_history(case):
             if op[0] == "write":
                 path = os.path.join(world, op[1])
                 os.makedirs(os.path.dirname(path), exist_ok=True)
+                if len(op) > 4 and op[4] == "keep_mtime" and os.path.isfile(path):
+                    # the file is REPLACED (new inode, new ctime) but keeps the old modification time
+                    st = os.stat(path)
+                    with open(path + ".replacement", "w", encoding="utf-8") as f:
+                        f.write(J.jinja_source(op[2], world))
+                    os.replace(path + ".replacement", path)
+                    os.utime(path, ns=(st.st_atime_ns, st.st_mtime_ns))
+                    continue
                 with open(path, "w", encoding="utf-8") as f:
                     f.write(J.jinja_source(op[2], world))
                 t = J.STAMP_BASE + op[3]
